@@ -35,6 +35,7 @@ def texts():
         pad = ' ' * k_
         for tpl in ['{ a,@b }: a', '{ a@, b }: a', '{ a ?@1, ... }: a', '{@a, ... }: a', '{ a, ...@}: a', '{ a =@1; }', '[ 1@2 ]', 'f@x', 'a:@a', 'let a =@1; in@a', 'inherit@a;', '{ inherit (p)@a; }', 'a +@b', 'if a@then b else c', 'with a;@b', 'a.b or@c']:
             yield 'space-run', tpl.replace('@', pad)
+            if k_ >= 16: yield 'space-run-ff', tpl.replace('@', '\n' + pad + '\f\n' + pad); yield 'space-run-vt', tpl.replace('@', '\n\n' + pad + '\v' + pad + '\n')
             yield 'space-run-nl', tpl.replace('@', '\n' + pad)
     for d_ in (1, 4, 8, 10, 12, 14, 16, 20, 24, 32):
         for inner in ['{\n@  x,\n@  ...\n@}:\n@x', '{\n@  x ? 1,\n@  y,\n@  ...\n@}@args:\n@x', '[\n@  1\n@  2\n@]', 'let\n@  a = 1;\n@in\n@a', 'f {\n@  a = 1;\n@}', 'if a then\n@  b\n@else\n@  c']:
